@@ -29,10 +29,8 @@ def extra(tier, rng):
     res = [coregen.foreign_sync_family(rng) for _ in range(40 if tier == "quick" else 600)]
     res += [{"special": "resetbetween", "resets": r, "sync": sy} for r in (0, 1, 2) for sy in (False, True)]
     res += [cc.ctxraise_case(w, n, h, sb) for w in ("pause", "resume") for n in (0, 1, 2) for h in (0, 1) for sb in (0, 1)]
-    for _ in range(60 if tier == "quick" else 1500):
-        c = coregen.gen_case(rng, rng.choice(["sync", "full", "yield"]), ntops=rng.choice([1, 2, 3]))
-        c["cfg"]["maxStack"] = rng.choice([1, 2, 3, 4, 6, 9])
-        res.append(c)
+    res += cc.guard_cases(tier, rng)
+    res += cc.corefam4.selfawait_cases(tier, cc.fork(rng, "selfawait"))
     return res
 
 
